@@ -210,8 +210,12 @@ class Field(WeightedGraph):
         ----------
         nbiter: int, optional, the number of iterations required
         """
+        from scipy.sparse import dia_matrix
         nbiter = int(nbiter)
-        lil = self.to_coo_matrix().tolil().rows.tolist()
+        # a vertex belongs to its own neighbourhood, as in dilation
+        adj = self.to_coo_matrix() + dia_matrix(
+            (np.ones(self.V), 0), (self.V, self.V))
+        lil = adj.tolil().rows.tolist()
         for i in range(nbiter):
             nf = np.zeros_like(self.field)
             for k, neighbors in enumerate(lil):
